@@ -847,3 +847,48 @@ def pickle_pair(ctx: Ctx) -> None:
     rets = [r for r in u.own_nodes() if isinstance(r, ast.Return)]
     ok = len(loads) >= 3 and len(rets) == 1 and isinstance(rets[0].value, ast.Call) and any(k.arg is None for k in rets[0].value.keywords)
     ctx.ob(u, None, ok, "the worker deserialises function, input and every keyword argument, then calls f(input, **kwargs)", sel="pickle:worker")
+
+
+@rule("PROXY-OPEN-1", props=["C05", "C06", "C11"], floor=2)
+def proxy_open(ctx: Ctx) -> None:
+    """the array a task reads or writes through a proxy is the proxy's *current* array:
+    CubedArrayProxy.open() opens self.array on every call and keeps no handle of its own (the
+    store operation re-points proxies in place; a cached handle keeps writing the old target)"""
+    repo = ctx.repo
+    cls = repo.get(f"{A.PTYPES}.CubedArrayProxy")
+    op = cls.children.get("open")
+    ctx.need(op is not None and op.is_func, "CubedArrayProxy.open not found")
+    fl, cfg = flow_of(repo, op), cfg_of(op)
+    rets = [r for r in cfg.returns() if r.stmt.value is not None]
+    ok = bool(rets)
+    for r in rets:
+        v = r.stmt.value
+        good = (
+            isinstance(v, ast.Call)
+            and any(t.kind == "def" and t.ref.name == "open_if_lazy_zarr_array" for t in repo.resolve_call(v, op, op.module))
+            and len(v.args) == 1
+            and isinstance(v.args[0], ast.Attribute)
+            and isinstance(v.args[0].value, ast.Name)
+            and v.args[0].value.id == op.params[0]
+        )
+        ok = ok and good
+    deco = [unparse(d_, 30) for d_ in op.node.decorator_list]
+    ctx.ob(op, None, not deco, "open() is a plain method (no caching decorator)" + ("" if not deco else f" — decorated with {deco}"), sel="proxy:undecorated")
+    ctx.ob(op, rets[0].stmt if rets else None, ok, "open() returns open_if_lazy_zarr_array(self.<array>) computed at this call" + ("" if ok else f" — it returns `{unparse(rets[0].stmt.value, 40) if rets else '?'}`: a handle kept from an earlier call survives the re-targeting of the proxy"), sel="proxy:open-current")
+    # no method of the proxy other than the constructor stores to self
+    stores = []
+    for name, m in cls.children.items():
+        if not m.is_func or name in ("__init__", "__post_init__", "__setstate__"):
+            continue
+        for n in m.own_nodes():
+            tg = n.targets if isinstance(n, ast.Assign) else [n.target] if isinstance(n, (ast.AugAssign, ast.AnnAssign)) else []
+            for t in tg:
+                if isinstance(t, ast.Attribute) and isinstance(t.value, ast.Name) and m.params and t.value.id == m.params[0]:
+                    stores.append((m, n, t.attr))
+    ctx.ob(cls, stores[0][1] if stores else None, not stores, "no proxy method keeps state between calls" + ("" if not stores else f" — `{stores[0][0].name}` stores self.{stores[0][2]}"), sel="proxy:stateless")
+    # the field read by open() is the one the store operation re-points
+    fld = rets[0].stmt.value.args[0].attr if ok else None
+    st = repo.get(f"{A.OPS}._store_array")
+    rep = [n for n in st.own_nodes() if isinstance(n, ast.Assign) and isinstance(n.targets[0], ast.Attribute) and isinstance(n.targets[0].value, ast.Subscript) and "writes_map" in {x.attr for x in ast.walk(n.targets[0]) if isinstance(x, ast.Attribute)} | {s_.id for s_ in ast.walk(n.targets[0]) if isinstance(s_, ast.Name)}]
+    if rep and fld is not None:
+        ctx.ob(st, rep[0], rep[0].targets[0].attr == fld, f"the write proxy field re-pointed by the store operation (`.{rep[0].targets[0].attr}`) is the one open() reads (`.{fld}`)", sel="proxy:same-field")
